@@ -67,9 +67,12 @@ BLIND_UND = [
 RT, AT = 1e-10, 1e-12
 
 
+_ORDER = ["C"]
+
+
 def _pair(ctx, fails, case, name, f1, f2, X1, X2):
-    o1 = ctx.call(f1, X1.copy())
-    o2 = ctx.call(f2, X2.copy())
+    o1 = ctx.call(f1, gen.layout(X1.copy(), _ORDER[0]))
+    o2 = ctx.call(f2, gen.layout(X2.copy(), _ORDER[0]))
     diff, how = compare.outcomes_equal(o1, o2, RT, AT)
     ctx.notes[how] += 1
     if how == "both_raise":
@@ -80,7 +83,8 @@ def _pair(ctx, fails, case, name, f1, f2, X1, X2):
 
 def check(case, ctx):
     cls = case["class"]
-    W = np.array(case["W"], dtype=float)
+    _ORDER[0] = case.get("order", "C")
+    W = gen.layout(np.array(case["W"], dtype=float), case.get("order"))
     n = len(W)
     fails = []
     ctx.label("class:" + cls)
@@ -132,7 +136,7 @@ def cases(draw, nmax):
         W = A.astype(float)
     else:
         W = draw(gen.weights_for(A, draw(st.sampled_from(["dyadic", "float", "tie"])), directed))
-    return {"class": cls, "W": W}
+    return {"class": cls, "W": W, "order": draw(st.sampled_from(gen.ORDERS))}
 
 
 _SP = {}
@@ -149,7 +153,7 @@ def _space(tier):
 
 def _exh(tier, lo, hi):
     for n, d, A, k in _space(tier).range(lo, hi):
-        yield {"class": "bin-dir" if d else "bin-und", "W": A.astype(float)}
+        yield {"class": "bin-dir" if d else "bin-und", "W": A.astype(float), "order": gen.ORDERS[k % len(gen.ORDERS)]}
 
 
 _D5 = gen.GraphSpace([(5, True)])
